@@ -33,6 +33,8 @@ HINTS = ["501", "502"]
 FCS = ["901", "902"]
 MODAL = {"MUSS": ["Muss", "M", "muss", "MUSS"], "SOLL": ["Soll", "S", "soll", "SOLL"], "KANN": ["Kann", "K", "kann"]}
 PACKAGES = {"7P": "[1] U [2]", "8P": "[3] O [4]"}
+# the same package keys mean different things in different content evaluation results (runs in one process must not remember them)
+PACKAGE_BODIES = {"7P": ["[1] U [2]", "[2]", "[3] O [1]", "[2] X [4]"], "8P": ["[3] O [4]", "[4]", "[5] U [6]", "[1] U [501]"]}
 
 
 def cond_pool(rng: random.Random, n: int = 60):
@@ -51,7 +53,8 @@ def gen_expr(rng: random.Random, pool, p_invalid: float = 0.0, p_soll: float = 0
     """structured AHB expression: list of (indicator kind, written indicator, condition text | None)"""
     def cond():
         if rng.random() < 0.1:
-            return rng.choice(["[7P]", "[7P] U [5]", "[8P][901]"])
+            # packages in every legal spelling: plain, with repeatability, with blanks inside the brackets, twice in one expression
+            return rng.choice(["[7P]", "[7P] U [5]", "[8P][901]", "[7P0..1]", "[7P 1..2] U [5]", "[ 8P ][901]", "[8P2..3] O [7P]", "[7P] U [8P] U [7P]", "[ 7P 0..3 ]"])
         return T.render(rng.choice(pool), T.Style(rng, "min", "upper", "one")).strip()
 
     if rng.random() < p_invalid:
@@ -122,7 +125,8 @@ class Gen:
     def cer(self, p_unknown=0.06):
         rng = self.rng
         rc = {k: ("K" if rng.random() < p_unknown else rng.choice("FFU")) for k in RC}
-        return {"rc": rc, "fc": {k: rng.random() < 0.6 for k in FCS}, "hints": {k: f"Hinweis {k}" for k in HINTS}, "packages": dict(PACKAGES)}
+        return {"rc": rc, "fc": {k: rng.random() < 0.6 for k in FCS}, "hints": {k: f"Hinweis {k}" for k in HINTS},
+                "packages": {k: rng.choice(v) for k, v in PACKAGE_BODIES.items()}}
 
 
 # ---------------------------------------------------------------------------------------------
